@@ -114,6 +114,8 @@ func main() {
 		cmdAuth(os.Args[2:])
 	case "l1c":
 		cmdL1c(os.Args[2:])
+	case "httpsurf":
+		cmdHTTPSurf(os.Args[2:])
 	case "workers":
 		cmdWorkers(os.Args[2:])
 	case "l1m":
